@@ -445,7 +445,12 @@ def r5_exact_accumulation(ctx):
     rounded weight is not additive). Re-states C04.R1/R2 (scoring accumulators) and C11.R2 (weights)."""
     from rules import c04, c11
     n = 0
-    for fn, keep in ((c04.r1_exact, lambda o: True), (c04.r2_allocation, lambda o: True), (c11.r2_validators, lambda o: "weight" in o.construct)):
+    from rules import c12
+    for fn, keep in ((c04.r1_exact, lambda o: True), (c04.r2_allocation, lambda o: True), (c11.r2_validators, lambda o: "weight" in o.construct),
+                     # equal scores are grouped exactly (a float or truthiness key splits / merges groups by value or by name order)
+                     (c04.r5_grouping_direction, lambda o: o.function.endswith("score_dict_to_ranking")),
+                     # candidates are removed by identity, never by substring of their name (renaming would change outcomes)
+                     (c12.r1_filter_polarity, lambda o: "wrapped" in o.construct)):
         sub = type(ctx)(ctx.prog, ctx.prop, ctx.tier)
         fn(sub)
         for o in sub.obs:
